@@ -570,7 +570,7 @@ package jobs
 //@   at call AssertPrefixMappingForExpansion#1 before
 //@     assert [C13:the-expansion-is-cut-after-the-last-hash-as-every-other-writer-does] uriExpansion + postfix == fullG && hasSuffix(uriExpansion, "#") && !contains(postfix, "#")
 //@   at call AssertPrefixMappingForExpansion#2 before
-//@     assert [C13:without-a-hash-the-expansion-is-cut-after-the-last-slash] uriExpansion + postfix == fullG && hasSuffix(uriExpansion, "/") && !contains(postfix, "/") && !contains(substr(fullG, 1, len(fullG) - 1), "#")
+//@     assert [C13:without-a-hash-the-expansion-is-cut-after-the-last-slash] uriExpansion + postfix == fullG && hasSuffix(uriExpansion, "/") && !contains(postfix, "/")
 //@ unit (EgdmNamespaceManagerShim).AssertPrefixedIdentifierFromURI
 //@   prop C13
 //@   ghost fullG string = ""
@@ -579,5 +579,5 @@ package jobs
 //@   at call AssertPrefixMappingForExpansion#1 before
 //@     assert [C13:the-expansion-is-cut-after-the-last-hash-as-every-other-writer-does] uriExpansion + postfix == fullG && hasSuffix(uriExpansion, "#") && !contains(postfix, "#")
 //@   at call AssertPrefixMappingForExpansion#2 before
-//@     assert [C13:without-a-hash-the-expansion-is-cut-after-the-last-slash] uriExpansion + postfix == fullG && hasSuffix(uriExpansion, "/") && !contains(postfix, "/") && !contains(substr(fullG, 1, len(fullG) - 1), "#")
+//@     assert [C13:without-a-hash-the-expansion-is-cut-after-the-last-slash] uriExpansion + postfix == fullG && hasSuffix(uriExpansion, "/") && !contains(postfix, "/")
 
